@@ -263,7 +263,7 @@ func valueChild(out *Out, seed uint64, start, count, cfg int, tier string) {
 				word = vals[r.Intn(len(vals))].Value
 			}
 		case 6:
-			word = stem + r.Pick([]string{"E", "ER", "ERR", "e", "ERRO"})
+			word = stem + r.Pick([]string{"E", "ER", "ERR", "e", "ERRO", "EER", "EE", "ERERR", "RE", "R", "AR", "EERR", "RR"})
 		case 7:
 			word = asciiLower(stem)
 		case 8:
